@@ -145,3 +145,13 @@ def lemma_beat_shift(a: Arr(Real, None), b: Arr(Real, None), a2: Arr(Real, None)
     mm_monotone(length(a), length(b), hit(a, b, w), hit(a2, b2, w))
     mm_monotone(length(a), length(b), hit(a2, b2, w), hit(a, b, w))
     ensures(beat_f_measure(a, b, w) == beat_f_measure(a2, b2, w), label='shift')
+
+
+@contract("mir_eval.util.validate_frequencies", props="C14")
+def validate_frequencies(frequencies: Arr(Real, None), max_freq: Real, min_freq: Real, allow_negatives: Bool = False):
+    raises(ValueError, when=exists(0, length(frequencies), lambda i: absr(frequencies[i]) > max_freq or absr(frequencies[i]) < min_freq), props="C14")
+
+
+@contract("mir_eval.tempo.validate_tempi", props="C14")
+def validate_tempi(tempi: Arr(Real, 2), reference: Bool = True):
+    raises(ValueError, when=tempi[0] < 0 or tempi[1] < 0 or (reference and tempi[0] == 0 and tempi[1] == 0), props="C14")
